@@ -11,31 +11,36 @@ from checks import synccheck, datacheck, tracecheck
 
 META = dict(
     text='TLC exhausts the sleep queue heap (SleepHeap.tla: push / pop_front / pop-from-the-middle with up/down transcribed; 5 elements, keys {1,2,3,never}, every operation sequence up to length 6 (thorough 8) from every key assignment) for heap order, back-index consistency, contents and front-is-minimum, with a broken pop as witness. Recorded executions of the real scheduler (populations of 2-12 sleepers with equal / distinct / zero / infinite deadlines on 1-3 vCPUs, yields, same- and cross-vCPU interrupts each with a unique reason) are validated by TLC against the sleep contract: 0 only after the requested time elapsed on the runtime clock, -1/e only for an interrupt with reason e that is consumed once and was not complete before the sleep began, expiry in deadline order within a vCPU, no thread left in a sleep queue; and every heap array dumped by the guarded hook after each sleep-queue operation must satisfy the heap invariants.',
-    note='Known finding F2 (a reason stored by thread_interrupt() on a READY thread is returned by that thread\'s next sleep) is recognised by its signature and reported as KNOWN-FINDING; any other stale or unmatched delivery is a violation. Wall-clock lateness is not judged (only order and elapsed >= requested). thread_shutdown()\'s bound is not covered yet.',
+    note='Known finding F2 (a reason stored by thread_interrupt() on a READY thread is returned by that thread\'s next sleep) is recognised by its signature and reported as KNOWN-FINDING; any other stale or unmatched delivery is a violation. Wall-clock lateness is not judged (only order and elapsed >= requested). thread_shutdown(): Trace_ShutdownA (a marked thread\'s sleeps end with -1/EPERM far below the requested time, progress-bounded). photon::Timer (Trace_TimerA) is judged here as a client of the mechanism.',
     technique='TLA+ transcription of the heap checked exhaustively by TLC; TLC trace validation of recorded sleep/interrupt executions against the sleep contract; hook-dumped heap states checked against the model invariants',
     design='3/C04')
 
 
 def f2_hits(rows):
     """F2 signature: a usleep returned -1 with the reason of an interrupt whose call had completed before the sleep was
-    invoked, the target being READY (state 0) when the interrupt was issued."""
+    invoked, the target being READY when the interrupt looked at it (recorded just before the call as 0 READY, or 1 RUNNING on
+    another vCPU)."""
     hits = 0
     for ex in tracecheck.split_execs(rows):
         done_intr = {}          # (target, err) -> position of the interrupt's Resp, for interrupts issued to a READY target
         pend_intr = {}
         sleep_inv = {}
+        reported, ready_intr = set(), set()
         for i, r in enumerate(ex):
             e, op = r.get('e'), r.get('op')
-            if e == 'Inv' and op == 'interrupt' and r.get('st') == 0:
+            if e == 'Inv' and op == 'interrupt' and r.get('st') in (0, 1):
                 pend_intr[r['t']] = (r['target'], r['err'])
+                ready_intr.add((r['target'], r['err']))
             elif e == 'Resp' and op == 'interrupt' and r['t'] in pend_intr:
                 done_intr[pend_intr.pop(r['t'])] = i
             elif e == 'Inv' and op == 'usleep':
                 sleep_inv[r['t']] = i
             elif e == 'Resp' and op == 'usleep' and r.get('r') == -1:
                 k = (r['t'], r['en'])
-                if k in done_intr and done_intr[k] < sleep_inv.get(r['t'], -1):
+                if (k in done_intr and done_intr[k] < sleep_inv.get(r['t'], -1)) or k in reported:
                     hits += 1
+                if k in ready_intr:
+                    reported.add(k)      # a zero-length sleep (= yield) reports the reason without clearing it: the next sleep reports it again
     return hits
 
 
@@ -84,7 +89,24 @@ def run(ctx):
     ctx.extra['max_heap_size_seen'] = max((r.get('n', 0) for r in rows if r['e'] == 'hHeap'), default=0)
     ctx.samples.append({'heap_dump': next(r for r in rows if r['e'] == 'hHeap' and r['n'] >= 3)})
     timer_stage(ctx)
+    shutdown_stage(ctx)
     return ctx.finish()
+
+
+def shutdown_stage(ctx):
+    """last clause of C04: a thread marked by thread_shutdown() cannot block for more than the documented bound"""
+    h = ctx.build_harness('h_sync')
+    trace = f'{ctx.out}/shutdown.ndjson'
+    ctx.run_harness(h, ['--prim', 'shutdown', '--execs', 60 if ctx.tier == 'quick' else 800, '--seed', ctx.seed + 11, '--vcpus', 2,
+                        '--out', trace], timeout=1500, ok_rcs=(0, 3, 4))
+    rows = vtlib.read_ndjson(trace)
+    acc, rejs, n = tracecheck.validate(ctx, 'Trace_ShutdownA', 'Trace_ShutdownA.cfg', rows, tagbase='shutA', timeout=900)
+    tracecheck.report(ctx, rejs, 'shutdown', name='Trace_ShutdownA_shutdown')
+    capped = sum(1 for r in rows if r.get('e') == 'Resp' and r.get('r') == -1 and r.get('en') == 1)
+    ctx.extra['shutdown'] = {'executions': n, 'accepted': acc, 'sleeps_ended_with_EPERM': capped,
+                             'marked_while_sleeping': sum(1 for r in rows if r.get('e') == 'ShutInv' and r.get('flag') and r.get('st') == 2)}
+    if not capped:
+        raise vtlib.InfraError('h_sync --prim shutdown: no sleep of a marked thread recorded (vacuous stage)')
 
 
 def timer_stage(ctx):
@@ -106,6 +128,10 @@ def timer_stage(ctx):
 
 def replay(ctx, path):
     rows = vtlib.read_ndjson(path)
+    if any(r.get('e') in ('ShutInv',) for r in rows) or any(r.get('prim') == 'shutdown' for r in rows):
+        acc, rejs, n = tracecheck.validate(ctx, 'Trace_ShutdownA', 'Trace_ShutdownA.cfg', rows, tagbase='replay_shut')
+        tracecheck.report(ctx, rejs, 'shutdown', name='Trace_ShutdownA_shutdown')
+        return 1 if ctx.violations else 0
     if any(r.get('e') in ('Fire', 'DtorInv', 'New') for r in rows):
         acc, rejs, n = tracecheck.validate(ctx, 'Trace_TimerA', 'Trace_TimerA.cfg', rows, tagbase='replay_timer')
         tracecheck.report(ctx, rejs, 'timer', name='Trace_TimerA_timer')
@@ -113,4 +139,11 @@ def replay(ctx, path):
     if rows and rows[0].get('e') == 'hHeap':
         datacheck.judge(ctx, 'Trace_SleepHeapB', 'Trace_SleepHeapB.cfg', path, what='heap dump')
         return 1 if ctx.violations else 0
-    return synccheck.replay(ctx, 'Trace_SleepA', 'Trace_SleepA.cfg', path)
+    open_f2 = any(f.get('id') == 'F2' for f in ctx.kf.get('open', []))
+    acc, rejs, n = tracecheck.validate(ctx, 'Trace_SleepA', 'Trace_SleepA.cfg', rows, tagbase='replay',
+                                       extra_env={'KF_F2': '1'} if open_f2 else None)
+    tracecheck.report(ctx, rejs, 'replay', name='replay')
+    if open_f2 and f2_hits(rows):
+        print(f'KNOWN-FINDING: property={ctx.pid} F2: stale interrupt reason delivered to a later sleep (signature of F2) in the replayed execution', flush=True)
+    print(f'replayed {n} execution(s): {acc} accepted, {len(rejs)} rejected')
+    return 1 if ctx.violations else 0
